@@ -418,7 +418,7 @@ def parse_bounds(
     return bound
 
 
-def cubic_spline(  # pylint: disable=dangerous-default-value  # always replaced by stateful-transform
+def cubic_spline(
     x: pandas.Series | numpy.ndarray,
     df: int | None = None,
     knots: Iterable[float] | None = None,
@@ -427,7 +427,7 @@ def cubic_spline(  # pylint: disable=dangerous-default-value  # always replaced 
     constraints: numpy.ndarray | Literal["center"] | None = None,
     cyclic: bool = False,
     extrapolation: str | SplineExtrapolation = "extend",
-    _state: dict = {},
+    _state: dict | None = None,
 ) -> FactorValues[dict]:
     """
     Evaluates cubic spline vectors for given inputs `x`, satisfying nominated
@@ -476,6 +476,12 @@ def cubic_spline(  # pylint: disable=dangerous-default-value  # always replaced 
         relevant metadata).
     """
     # Prepare and check arguments
+    # This function is also usable directly (it is only its `cr`/`cs`/`cc`
+    # partials that are wrapped as stateful transforms), in which case state
+    # must not be shared between calls.
+    if _state is None:
+        _state = {}
+
     if df is not None and knots is not None:
         raise ValueError("You cannot specify both `df` and `knots`.")
 
